@@ -94,7 +94,11 @@ class EpsilonIndicator(Indicator):
             return POSITIVE_INFINITY
 
         normalize(feasible, self.minimum, self.maximum)
-        return max([min([max([s2.normalized_objectives[k] - s1.normalized_objectives[k] for k in range(s2.problem.nobjs)]) for s2 in feasible]) for s1 in self.reference_set])
+
+        # how much worse s2 is than s1 in objective k, measured in the objective's own direction
+        sign = [-1.0 if d == Direction.MAXIMIZE else 1.0 for d in feasible[0].problem.directions]
+
+        return max([min([max([sign[k] * (s2.normalized_objectives[k] - s1.normalized_objectives[k]) for k in range(s2.problem.nobjs)]) for s2 in feasible]) for s1 in self.reference_set])
 
 class Spacing(Indicator):
     """Spacing performance indicator."""
